@@ -61,6 +61,9 @@ CLAIMED = {
  "C18": ("runtime monitoring: differential monitor between a body written with dynamic blocks and the same body written out by the harness, decoded under generated specifications; conformance / partial-equality monitors for unknown for_each; expansion-variable pruning",
          "Body trees with repetition groups (labels computed from the iterator, content referring to own and outer iterators and scope variables, nested static blocks and nested groups to depth 3, default and custom iterator names incl. shadowing names and for_each variables named like the iterator) over collections of every iterable kind (sizes 0-4, marked or not) are rendered with dynamic blocks and written out by substitution on the harness AST; both are decoded under a generated spec (tuple / object / single / attrs kinds) and must agree in error-ness and value; expansion is repeated with only the reported expansion variables; in 1 case of 5 one for_each (any depth) is unknown and the result must conform to the implied type, leave unaffected parts equal and the affected part not wholly known. Held on the executions observed.",
          "cty element iteration defines iteration order; marks are compared by C06, here values are compared unmarked; the affected-part clause is decided only when the unknown group's content holds an attribute directly.", "DESIGN.md §5 C18"),
+ "C17": ("runtime monitoring: Go race detector over goroutine storms on shared parsed trees + solo-vs-concurrent differential + register-history check (direct and with porcupine) of the splat symbol's per-context state recorded through the tag-guarded hooks, with seeded yields at the hook sites",
+         "One program per case (splat-rich native expression, native body, JSON body, body with dynamic blocks) is parsed once; 2-32 goroutines, each with its own child context of a shared parent and goroutine-unique values, repeat Value / Variables / Decode / PartialDecode / PartialContent+JustAttributes / Expand+Content with shared schemas; every result is compared with the same call run alone; the worker is the -race build and every race report (halt_on_error=0, read from the log after each storm) is a violation; the hooks record every set/get/clear of the splat symbol state under its own lock and the per-(symbol, context) histories must be register histories (checked directly and with porcupine); yields at the hook sites are seeded; evidence reports overlaps actually observed. Held on the executions observed.",
+         "The race detector sees only executed interleavings. Order of traversals reported by hcldec.Variables is not part of the result (Go map iteration).", "DESIGN.md §5 C17"),
 }
 
 NOT_YET = "monitor designed in DESIGN.md §5 but not yet built in this tree; will be claimed once its check is registered"
